@@ -180,6 +180,7 @@ class MuxSocketTransportSink(ClientMessageSink):
       **kwargs)
 
   def _OpenImpl(self):
+    open_result = self._open_result
     try:
       self._log.debug('Opening transport.')
       self._socket.open()
@@ -187,12 +188,16 @@ class MuxSocketTransportSink(ClientMessageSink):
       self._greenlets.append(self._SpawnNamedGreenlet('Send Loop', self._SendLoop))
 
       self._CheckInitialConnection()
+      if self._open_result is not open_result:
+        # The connection failed (and _Shutdown ran) after the initial check
+        # was answered but before we got here; the transport is not usable.
+        raise Exception('Transport was shut down while opening.')
       self._log.debug('Open successful')
       self._state = ChannelState.Open
       self._varz.active(1)
     except Exception as e:
       self._log.error('Exception opening socket')
-      self._open_result.set_exception(e)
+      open_result.set_exception(e)
       self._Shutdown('Open failed')
       raise
 
